@@ -395,3 +395,336 @@ Proof. intros Hwf. exact (inv_cc _ _ (inv_run c evs Hwf) h). Qed.
 Theorem group_count_exact c evs g :
   wf evs -> cget (groups (run c init evs)) g = outbound_of_group (run c init evs) g.
 Proof. intros Hwf. exact (inv_gc _ _ (inv_run c evs Hwf) g). Qed.
+
+(* ------------------------------------------------------------------ per-host limit *)
+(* the counter itself never exceeds the limit (any history) *)
+Lemma step_ccount_le c s e :
+  0 <= max_per_ip c -> (forall h, cget (ccount s) h <= max_per_ip c) ->
+  forall h, cget (ccount (fst (step c s e))) h <= max_per_ip c.
+Proof.
+  intros Hm Hle h. destruct e as [p now|p|h' now]; cbn [step fst].
+  - unfold add_peer.
+    assert (Hgen : forall s1, ccount s1 = ccount s ->
+      cget (ccount (fst (if cget (ccount s1) (host p) >=? max_per_ip c then (s1, false)
+        else if total s1 >=? max_peers c then (s1, false)
+        else match pkind p with
+        | Inbound => (mkSt (aset (inb s1) (pid p) p) (outb s1) (pers s1) (banned s1) (groups s1) (cincr (ccount s1) (host p)), true)
+        | Persistent => (mkSt (inb s1) (outb s1) (aset (pers s1) (pid p) p) (banned s1) (cincr (groups s1) (group p)) (ccount s1), true)
+        | Outbound => (mkSt (inb s1) (aset (outb s1) (pid p) p) (pers s1) (banned s1) (cincr (groups s1) (group p)) (cincr (ccount s1) (host p)), true)
+        end))) h <= max_per_ip c).
+    { intros s1 Hc. specialize (Hle h).
+      destruct (cget (ccount s1) (host p) >=? max_per_ip c) eqn:E1; [simp; rewrite Hc; exact Hle|].
+      destruct (total s1 >=? max_peers c); [simp; rewrite Hc; exact Hle|].
+      destruct (pkind p); simp; rewrite ?cget_cincr, ?Hc in *;
+        try (destruct (host p =? h) eqn:E2; [apply Z.eqb_eq in E2; subst h; lia|lia]). }
+    destruct (aget (banned s) (host p)) as [e|].
+    + destruct (now <? e); [simp; apply Hle|]. apply Hgen. reflexivity.
+    + apply Hgen. reflexivity.
+  - unfold done_peer. specialize (Hle h).
+    destruct (pkind p).
+    + destruct (aget (inb s) (pid p)); simp; [|exact Hle]. rewrite cget_cdecr. destruct (host p =? h); lia.
+    + destruct (aget (outb s) (pid p)); simp; [|exact Hle]. rewrite cget_cdecr. destruct (host p =? h); lia.
+    + destruct (aget (pers s) (pid p)); simp; exact Hle.
+  - simp. apply Hle.
+Qed.
+
+Lemma ccount_le_max c evs h : 0 <= max_per_ip c -> cget (ccount (run c init evs)) h <= max_per_ip c.
+Proof.
+  intros Hm. revert h. induction evs as [|e l IH] using rev_ind; intros h.
+  - simpl. exact Hm.
+  - rewrite run_snoc. apply step_ccount_le; assumption.
+Qed.
+
+Theorem per_host_le_max c evs h :
+  0 <= max_per_ip c -> wf evs -> counted_of_host (run c init evs) h <= max_per_ip c.
+Proof.
+  intros Hm Hwf. rewrite <- (conn_count_exact c evs h Hwf). apply ccount_le_max. exact Hm.
+Qed.
+
+(* ------------------------------------------------------------------ bans *)
+Lemma time_mono_weaken lo lo' l : lo' <= lo -> time_mono lo l -> time_mono lo' l.
+Proof.
+  revert lo lo'. induction l as [|e t IH]; simpl; intros lo lo' Hle H; [exact I|].
+  destruct (ev_time e) as [x|].
+  - destruct H as [H1 H2]. split; [lia|exact H2].
+  - exact (IH _ _ Hle H).
+Qed.
+
+Lemma time_mono_last lo l p now : time_mono lo (l ++ [Add p now]) -> lo <= now.
+Proof.
+  revert lo. induction l as [|e t IH]; simpl; intros lo H.
+  - destruct H as [H _]. exact H.
+  - destruct (ev_time e) as [x|].
+    + destruct H as [H1 H2]. specialize (IH _ H2). lia.
+    + exact (IH _ H).
+Qed.
+
+(* banned field after one step, for a host other than the one touched *)
+Lemma add_banned_other c s p now h :
+  host p <> h -> aget (banned (fst (add_peer c s p now))) h = aget (banned s) h.
+Proof.
+  intros Hne. unfold add_peer.
+  assert (Hgen : forall s1, aget (banned s1) h = aget (banned s) h ->
+    aget (banned (fst (if cget (ccount s1) (host p) >=? max_per_ip c then (s1, false)
+      else if total s1 >=? max_peers c then (s1, false)
+      else match pkind p with
+      | Inbound => (mkSt (aset (inb s1) (pid p) p) (outb s1) (pers s1) (banned s1) (groups s1) (cincr (ccount s1) (host p)), true)
+      | Persistent => (mkSt (inb s1) (outb s1) (aset (pers s1) (pid p) p) (banned s1) (cincr (groups s1) (group p)) (ccount s1), true)
+      | Outbound => (mkSt (inb s1) (aset (outb s1) (pid p) p) (pers s1) (banned s1) (cincr (groups s1) (group p)) (cincr (ccount s1) (host p)), true)
+      end))) h = aget (banned s) h).
+  { intros s1 H1.
+    destruct (cget (ccount s1) (host p) >=? max_per_ip c); [exact H1|].
+    destruct (total s1 >=? max_peers c); [exact H1|].
+    destruct (pkind p); exact H1. }
+  destruct (aget (banned s) (host p)) as [e|].
+  - destruct (now <? e); [reflexivity|]. apply Hgen. simp. apply aget_adel_other. congruence.
+  - apply Hgen. reflexivity.
+Qed.
+
+Lemma add_rejected_when_banned c s p now e :
+  aget (banned s) (host p) = Some e -> now < e -> add_peer c s p now = (s, false).
+Proof.
+  intros Hb Hlt. unfold add_peer. rewrite Hb.
+  assert (E : (now <? e) = true) by (apply Z.ltb_lt; exact Hlt). rewrite E. reflexivity.
+Qed.
+
+Lemma done_banned s p : banned (done_peer s p) = banned s.
+Proof.
+  unfold done_peer. destruct (pkind p).
+  - destruct (aget (inb s) (pid p)); reflexivity.
+  - destruct (aget (outb s) (pid p)); reflexivity.
+  - destruct (aget (pers s) (pid p)); reflexivity.
+Qed.
+
+(* once host h is banned at t0, the entry stays (possibly renewed to a later expiry) as long as
+   the clock has not reached t0 + ban_dur *)
+Lemma ban_persists c h t0 p now :
+  host p = h -> now < t0 + ban_dur c ->
+  forall evs s lo e,
+    aget (banned s) h = Some e -> t0 + ban_dur c <= e -> t0 <= lo ->
+    time_mono lo (evs ++ [Add p now]) ->
+    step c (run c s evs) (Add p now) = (run c s evs, false).
+Proof.
+  intros Hh Hnow. induction evs as [|ev l IH]; intros s lo e Hb He Hlo Hm.
+  - simpl. apply (add_rejected_when_banned c s p now e); [rewrite Hh; exact Hb|lia].
+  - rewrite run_cons. change ((ev :: l) ++ [Add p now]) with (ev :: (l ++ [Add p now])) in Hm.
+    destruct ev as [q t|q|h' t]; cbn [time_mono ev_time] in Hm.
+    + destruct Hm as [Hm1 Hm2]. pose proof (time_mono_last _ _ _ _ Hm2) as Hle.
+      cbn [step]. destruct (Z.eq_dec (host q) h) as [Heq|Hne].
+      * rewrite (add_rejected_when_banned c s q t e); [|rewrite Heq; exact Hb|lia].
+        cbn [fst]. apply (IH s t e); try assumption; lia.
+      * apply (IH _ t e); try assumption; [|lia].
+        rewrite add_banned_other by exact Hne. exact Hb.
+    + cbn [step fst]. apply (IH _ lo e); try assumption. rewrite done_banned. exact Hb.
+    + destruct Hm as [Hm1 Hm2]. cbn [step fst]. unfold ban_host.
+      destruct (Z.eq_dec h' h) as [Heq|Hne].
+      * subst h'. apply (IH _ t (t + ban_dur c)); try assumption; [|lia|lia].
+        simp. apply aget_aset_same.
+      * apply (IH _ t e); try assumption; [|lia].
+        simp. rewrite aget_aset_other by congruence. exact Hb.
+Qed.
+
+(* no peer of a banned host is admitted before the ban duration has elapsed: whatever happened
+   before the ban (evs1) and whatever happens between the ban and the Add (evs2, clock readings not
+   going backwards), the Add is refused and leaves the state untouched *)
+Theorem banned_not_admitted_before_expiry c evs1 evs2 h t0 p now :
+  host p = h -> now < t0 + ban_dur c ->
+  time_mono t0 (evs2 ++ [Add p now]) ->
+  let s := run c init (evs1 ++ Ban h t0 :: evs2) in
+  step c s (Add p now) = (s, false).
+Proof.
+  intros Hh Hnow Hm s. subst s.
+  rewrite run_app, run_cons. cbn [step fst].
+  apply (ban_persists c h t0 p now Hh Hnow evs2 _ t0 (t0 + ban_dur c)); try lia; [|exact Hm].
+  unfold ban_host. simp. apply aget_aset_same.
+Qed.
+
+(* every entry of the ban table stems from a Ban event of the history *)
+Lemma banned_origin c evs h e :
+  aget (banned (run c init evs)) h = Some e -> exists t0, In (Ban h t0) evs /\ e = t0 + ban_dur c.
+Proof.
+  revert h e. induction evs as [|ev l IH] using rev_ind; intros h e H.
+  - discriminate.
+  - rewrite run_snoc in H.
+    assert (Hold : aget (banned (run c init l)) h = Some e -> exists t0, In (Ban h t0) (l ++ [ev]) /\ e = t0 + ban_dur c).
+    { intros H0. destruct (IH _ _ H0) as [t0 [X1 X2]]. exists t0. split; [apply in_or_app; left; exact X1|exact X2]. }
+    destruct ev as [q t|q|h' t]; cbn [step fst] in H.
+    + destruct (Z.eq_dec (host q) h) as [Heq|Hne].
+      * apply Hold. revert H. unfold add_peer.
+        destruct (aget (banned (run c init l)) (host q)) as [e'|] eqn:Hb.
+        -- destruct (t <? e').
+           ++ cbn [fst]. intros H. exact H.
+           ++ set (s1 := set_banned (run c init l) (adel (banned (run c init l)) (host q))).
+              assert (Hn : aget (banned s1) h = None) by (subst s1; simp; rewrite Heq; apply aget_adel_same).
+              destruct (cget (ccount s1) (host q) >=? max_per_ip c); [cbn [fst]; congruence|].
+              destruct (total s1 >=? max_peers c); [cbn [fst]; congruence|].
+              destruct (pkind q); cbn [fst banned]; congruence.
+        -- destruct (cget (ccount (run c init l)) (host q) >=? max_per_ip c); [cbn [fst]; auto|].
+           destruct (total (run c init l) >=? max_peers c); [cbn [fst]; auto|].
+           destruct (pkind q); cbn [fst banned]; auto.
+      * rewrite add_banned_other in H by exact Hne. apply Hold. exact H.
+    + rewrite done_banned in H. apply Hold. exact H.
+    + unfold ban_host in H. simp.
+      destruct (Z.eq_dec h' h) as [Heq|Hne].
+      * subst h'. rewrite aget_aset_same in H. inversion H. exists t. split; [apply in_or_app; right; left; reflexivity|reflexivity].
+      * rewrite aget_aset_other in H by congruence. apply Hold. exact H.
+Qed.
+
+(* ... while it is admitted again afterwards, and admission is not wedged: when every ban of the
+   host has run out, fewer than max_per_ip counted peers of the host are actually admitted and fewer
+   than max_peers in total, a new peer object IS admitted *)
+Theorem admitted_after_expiry c evs p now :
+  wf (evs ++ [Add p now]) ->
+  (forall t0, In (Ban (host p) t0) evs -> t0 + ban_dur c <= now) ->
+  counted_of_host (run c init evs) (host p) < max_per_ip c ->
+  total (run c init evs) < max_peers c ->
+  snd (step c (run c init evs) (Add p now)) = true /\
+  admitted (fst (step c (run c init evs) (Add p now))) p.
+Proof.
+  intros Hwf Hb Hc Ht.
+  pose proof (wf_prefix _ _ Hwf) as Hwl.
+  rewrite <- (conn_count_exact c evs (host p) Hwl) in Hc.
+  set (s := run c init evs) in *.
+  cbn [step]. unfold add_peer.
+  assert (Hgen : forall s1, ccount s1 = ccount s -> total s1 = total s ->
+    let r := (if cget (ccount s1) (host p) >=? max_per_ip c then (s1, false)
+      else if total s1 >=? max_peers c then (s1, false)
+      else match pkind p with
+      | Inbound => (mkSt (aset (inb s1) (pid p) p) (outb s1) (pers s1) (banned s1) (groups s1) (cincr (ccount s1) (host p)), true)
+      | Persistent => (mkSt (inb s1) (outb s1) (aset (pers s1) (pid p) p) (banned s1) (cincr (groups s1) (group p)) (ccount s1), true)
+      | Outbound => (mkSt (inb s1) (aset (outb s1) (pid p) p) (pers s1) (banned s1) (cincr (groups s1) (group p)) (cincr (ccount s1) (host p)), true)
+      end) in snd r = true /\ admitted (fst r) p).
+  { intros s1 E1 E2 r. subst r. rewrite E1, E2.
+    assert (X1 : (cget (ccount s) (host p) >=? max_per_ip c) = false) by lia.
+    assert (X2 : (total s >=? max_peers c) = false) by lia.
+    rewrite X1, X2. unfold admitted.
+    destruct (pkind p); cbn [fst snd inb outb pers]; (split; [reflexivity|apply aget_aset_same]). }
+  destruct (aget (banned s) (host p)) as [e|] eqn:Hbe.
+  - destruct (banned_origin c evs _ _ Hbe) as [t0 [X1 X2]]. specialize (Hb _ X1).
+    assert (E : (now <? e) = false) by lia. rewrite E. apply Hgen; reflexivity.
+  - apply Hgen; reflexivity.
+Qed.
+
+(* ------------------------------------------------------------------ counters return to zero *)
+Definition amap (k : kind) (s : st) : list (Z * peer) :=
+  match k with Inbound => inb s | Outbound => outb s | Persistent => pers s end.
+
+Lemma add_amap c s p now k :
+  amap k (fst (add_peer c s p now)) = amap k s \/ amap k (fst (add_peer c s p now)) = aset (amap k s) (pid p) p.
+Proof.
+  unfold add_peer.
+  assert (Hgen : forall s1, amap k s1 = amap k s ->
+    let r := (if cget (ccount s1) (host p) >=? max_per_ip c then (s1, false)
+      else if total s1 >=? max_peers c then (s1, false)
+      else match pkind p with
+      | Inbound => (mkSt (aset (inb s1) (pid p) p) (outb s1) (pers s1) (banned s1) (groups s1) (cincr (ccount s1) (host p)), true)
+      | Persistent => (mkSt (inb s1) (outb s1) (aset (pers s1) (pid p) p) (banned s1) (cincr (groups s1) (group p)) (ccount s1), true)
+      | Outbound => (mkSt (inb s1) (aset (outb s1) (pid p) p) (pers s1) (banned s1) (cincr (groups s1) (group p)) (cincr (ccount s1) (host p)), true)
+      end) in amap k (fst r) = amap k s \/ amap k (fst r) = aset (amap k s) (pid p) p).
+  { intros s1 E r. subst r.
+    destruct (cget (ccount s1) (host p) >=? max_per_ip c); [left; exact E|].
+    destruct (total s1 >=? max_peers c); [left; exact E|].
+    destruct (pkind p); destruct k; cbn [fst amap inb outb pers] in *; rewrite ?E; auto. }
+  destruct (aget (banned s) (host p)) as [e|].
+  - destruct (now <? e); [left; reflexivity|]. apply Hgen. destruct k; reflexivity.
+  - apply Hgen. reflexivity.
+Qed.
+
+Lemma done_amap s p k :
+  amap k (done_peer s p) = amap k s \/ amap k (done_peer s p) = adel (amap k s) (pid p).
+Proof.
+  unfold done_peer. destruct (pkind p).
+  - destruct (aget (inb s) (pid p)); destruct k; cbn [amap inb outb pers]; auto.
+  - destruct (aget (outb s) (pid p)); destruct k; cbn [amap inb outb pers]; auto.
+  - destruct (aget (pers s) (pid p)); destruct k; cbn [amap inb outb pers]; auto.
+Qed.
+
+Lemma done_removes s p : aget (amap (pkind p) (done_peer s p)) (pid p) = None.
+Proof.
+  unfold done_peer. destruct (pkind p) eqn:K; cbn [amap].
+  - destruct (aget (inb s) (pid p)) eqn:G; cbn [inb]; [apply aget_adel_same|exact G].
+  - destruct (aget (outb s) (pid p)) eqn:G; cbn [outb]; [apply aget_adel_same|exact G].
+  - destruct (aget (pers s) (pid p)) eqn:G; cbn [pers]; [apply aget_adel_same|exact G].
+Qed.
+
+Lemma absent_stays c k i l : forall s,
+  aget (amap k s) i = None -> ~ In i (map pid (added l)) -> aget (amap k (run c s l)) i = None.
+Proof.
+  induction l as [|e t IH]; intros s Hn Hni; [exact Hn|].
+  rewrite run_cons. destruct e as [p now|p|h now]; cbn [step fst added map] in *.
+  - apply IH; [|intros H; apply Hni; right; exact H].
+    destruct (add_amap c s p now k) as [E|E]; rewrite E; [exact Hn|].
+    rewrite aget_aset_other; [exact Hn|]. intros X. apply Hni. left. congruence.
+  - apply IH; [|exact Hni].
+    destruct (done_amap s p k) as [E|E]; rewrite E; [exact Hn|].
+    destruct (Z.eq_dec i (pid p)) as [X|X]; [subst i; apply aget_adel_same|].
+    rewrite aget_adel_other by exact X. exact Hn.
+  - apply IH; [|exact Hni]. destruct k; exact Hn.
+Qed.
+
+(* p was handed to Add and later to Done *)
+Definition left_after (evs : list ev) (p : peer) : Prop :=
+  exists l1 t l2 l3, evs = l1 ++ Add p t :: l2 ++ Done p :: l3.
+
+Lemma left_not_admitted c evs p :
+  wf evs -> left_after evs p -> aget (amap (pkind p) (run c init evs)) (pid p) = None.
+Proof.
+  intros [Hnd _] [l1 [t [l2 [l3 E]]]]. subst evs.
+  replace (l1 ++ Add p t :: l2 ++ Done p :: l3) with ((l1 ++ Add p t :: l2) ++ Done p :: l3)
+    by (rewrite <- app_assoc; reflexivity).
+  rewrite run_app, run_cons. cbn [step fst].
+  apply absent_stays; [apply done_removes|].
+  rewrite !added_app in Hnd. cbn [added] in Hnd. rewrite added_app in Hnd. cbn [added] in Hnd.
+  rewrite !map_app in Hnd. cbn [map] in Hnd. rewrite map_app in Hnd.
+  apply NoDup_remove_2 in Hnd. intros X. apply Hnd.
+  apply in_or_app. right. apply in_or_app. right. exact X.
+Qed.
+
+Lemma cnt_zero f l : (forall i q, In (i, q) l -> f q = false) -> cnt f l = 0.
+Proof.
+  induction l as [|[i q] t IH]; intros H; [reflexivity|].
+  rewrite cnt_cons, IH; [|intros j r Hr; apply (H j r); right; exact Hr].
+  rewrite (H i q) by (left; reflexivity). reflexivity.
+Qed.
+
+(* "per-host counters return to zero when the corresponding peers have left" *)
+Theorem host_counter_returns_to_zero c evs h :
+  wf evs ->
+  (forall p, In p (added evs) -> host p = h -> pkind p <> Persistent -> left_after evs p) ->
+  cget (ccount (run c init evs)) h = 0.
+Proof.
+  intros Hwf Hleft. rewrite (conn_count_exact c evs h Hwf). unfold counted_of_host.
+  pose proof (inv_run c evs Hwf) as [N1 N2 N3 E1 E2 E3 _ _].
+  rewrite !hcount_cnt, !cnt_zero; [reflexivity| |].
+  - intros i q Hin. destruct (E2 _ _ Hin) as [X1 [X2 X3]].
+    destruct (host q =? h) eqn:E; [|reflexivity]. apply Z.eqb_eq in E. exfalso.
+    assert (Hl : left_after evs q) by (apply Hleft; [exact X3|exact E|rewrite X2; discriminate]).
+    pose proof (left_not_admitted c evs q Hwf Hl) as Hn. rewrite X2 in Hn. cbn [amap] in Hn.
+    rewrite X1 in Hn. rewrite (nodupk_In_aget _ _ _ N2 Hin) in Hn. discriminate.
+  - intros i q Hin. destruct (E1 _ _ Hin) as [X1 [X2 X3]].
+    destruct (host q =? h) eqn:E; [|reflexivity]. apply Z.eqb_eq in E. exfalso.
+    assert (Hl : left_after evs q) by (apply Hleft; [exact X3|exact E|rewrite X2; discriminate]).
+    pose proof (left_not_admitted c evs q Hwf Hl) as Hn. rewrite X2 in Hn. cbn [amap] in Hn.
+    rewrite X1 in Hn. rewrite (nodupk_In_aget _ _ _ N1 Hin) in Hn. discriminate.
+Qed.
+
+(* "... and per-group counters" *)
+Theorem group_counter_returns_to_zero c evs g :
+  wf evs ->
+  (forall p, In p (added evs) -> group p = g -> pkind p <> Inbound -> left_after evs p) ->
+  cget (groups (run c init evs)) g = 0.
+Proof.
+  intros Hwf Hleft. rewrite (group_count_exact c evs g Hwf). unfold outbound_of_group.
+  pose proof (inv_run c evs Hwf) as [N1 N2 N3 E1 E2 E3 _ _].
+  rewrite !gcount_cnt, !cnt_zero; [reflexivity| |].
+  - intros i q Hin. destruct (E3 _ _ Hin) as [X1 [X2 X3]].
+    destruct (group q =? g) eqn:E; [|reflexivity]. apply Z.eqb_eq in E. exfalso.
+    assert (Hl : left_after evs q) by (apply Hleft; [exact X3|exact E|rewrite X2; discriminate]).
+    pose proof (left_not_admitted c evs q Hwf Hl) as Hn. rewrite X2 in Hn. cbn [amap] in Hn.
+    rewrite X1 in Hn. rewrite (nodupk_In_aget _ _ _ N3 Hin) in Hn. discriminate.
+  - intros i q Hin. destruct (E2 _ _ Hin) as [X1 [X2 X3]].
+    destruct (group q =? g) eqn:E; [|reflexivity]. apply Z.eqb_eq in E. exfalso.
+    assert (Hl : left_after evs q) by (apply Hleft; [exact X3|exact E|rewrite X2; discriminate]).
+    pose proof (left_not_admitted c evs q Hwf Hl) as Hn. rewrite X2 in Hn. cbn [amap] in Hn.
+    rewrite X1 in Hn. rewrite (nodupk_In_aget _ _ _ N2 Hin) in Hn. discriminate.
+Qed.
